@@ -308,6 +308,32 @@ def fork_decorated(sc):
     return out
 
 
+def endpoint_decorated(sc):
+    """A validator's attestations reach Dirk through two endpoints - one request at a time, or a batch (of any size, one included).
+    In every third scenario (chosen by a digest of its id) every second single attestation request is sent as a batch of ONE through
+    the batch endpoint: the same entry, the same expected verdict, the same record - but the other endpoint's code on the way."""
+    import zlib
+    if not isinstance(sc, dict) or not sc.get("ops") or zlib.crc32(("ep" + str(sc.get("id", ""))).encode()) % 3 != 1:
+        return sc
+    out = dict(sc)
+    n = [0]
+
+    def deco(ops):
+        res = []
+        for op in ops:
+            op = dict(op)
+            if op.get("ops"):
+                op["ops"] = deco(op["ops"])
+            elif op.get("kind") == "att" and len(op.get("ents") or []) == 1 and not op.get("level") and op.get("by") != "both" and op["ents"][0].get("by") != "both":
+                n[0] += 1
+                if n[0] % 2 == 0:
+                    op["kind"] = "atts"
+            res.append(op)
+        return res
+    out["ops"] = deco(sc["ops"])
+    return out
+
+
 def run_driver(scenarios, wd, tag="drv", timeout=600, target="dirkdrv", env=None, allow_exit=(0,), dirk=None):
     """Run the child driver on a list of scenarios; returns (events, returncode).  dirk: path of the real dirk binary - the scenarios
     are then run against the shipped program over TLS (signing ops, restart = SIGKILL + new process, kill_after_us)."""
@@ -315,7 +341,7 @@ def run_driver(scenarios, wd, tag="drv", timeout=600, target="dirkdrv", env=None
     sf = os.path.join(wd, tag + ".scenarios.json")
     of = os.path.join(wd, tag + ".trace.ndjson")
     if target == "dirkdrv":
-        scenarios = [fork_decorated(sc) for sc in scenarios]
+        scenarios = [endpoint_decorated(fork_decorated(sc)) for sc in scenarios]
     with open(sf, "w") as fh:
         json.dump(scenarios, fh)
     e = dict(os.environ)
